@@ -549,8 +549,11 @@ def probe_check(case):
             key = (j, i) if (j, i) in pairs else (i, j)
             if i == j or key not in pairs:
                 continue
+            trial = {k_: v for k_, v in pairs.items() if k_ != key}
+            if not _pd(vols, trial) or not _pd([1.0] * n, trial):
+                continue  # (taking one pair out of a correlation structure can leave a matrix that is no correlation matrix at all)
             _call(f.remove_correlation, market_id1=i, market_id2=j)
-            pairs = {k_: v for k_, v in pairs.items() if k_ != key}
+            pairs = trial
         applied += 1
     case = dict(case, markets=markets)
     volm = [i for i, m in enumerate(markets) if m["vol"] > 0]
